@@ -212,6 +212,7 @@ def solve_eigen(A: spmatrix,
         if isinstance(I, tuple):
             np.add.at(y, I[0], np.array([I[1](x) for x in X.T]).T)
         else:
+            y = y.astype(np.result_type(y, X), copy=False)
             y[I] = X
         return L, y
     return solver(A, M, **kwargs)
@@ -232,7 +233,11 @@ def solve_linear(A: spmatrix,
         if isinstance(I, tuple):
             np.add.at(y, I[0], I[1](solver(A, b, **kwargs)))
         else:
-            y[I] = solver(A, b, **kwargs)
+            sol = solver(A, b, **kwargs)
+            # the expanded vector must be able to hold the solution,
+            # e.g., a complex solution together with real x
+            y = y.astype(np.result_type(y, sol), copy=False)
+            y[I] = sol
         return y
     return solver(A, b, **kwargs)
 
